@@ -14,7 +14,7 @@ import (
 // C09: commands run exactly once and only after a fully successful parse.
 // Fault enumeration: every single fault at every position of a valid vector.
 
-var c09Decl = &GenCfg{Depth: 3, Fanout: 2, MaxOpts: 3, MaxGroups: 2, NestGroups: 1, Kinds: []Kind{KBool, KString, KInt, KStringSlice, KUint8, KMapSI, KFloat64, KTri},
+var c09Decl = &GenCfg{Depth: 3, Fanout: 2, MaxOpts: 3, MaxGroups: 2, NestGroups: 1, Kinds: []Kind{KBool, KString, KInt, KStringSlice, KUint8, KMapSI, KFloat64, KTri, KToggle},
 	Pos: true, PosPct: 40, PosReq: true, Ns: true, Req: 12, Choices: true, OptArg: true, Aliases: true, SubOpt: 35, CmdPct: 92, Hidden: true, Defaults: true, ByTagPct: 15, ViaAdd: 3, InCode: 8,
 	ParserOpts: []flags.Options{flags.PassDoubleDash, flags.IgnoreUnknown}}
 
